@@ -13,9 +13,12 @@ git apply -R mutant.diff
 O=$(cargo test --offline $FEAT --test "$T" 2>&1 | grep -E "^test result" | head -1 | cut -c14-45)
 git apply mutant.diff; rm -rf tests
 echo "suite[$S] demo-with[$W] demo-without[$O]"
+EVBAK=$(mktemp -d); cp -r /verif/evidence "$EVBAK/"; cp /verif/lean/Pep508/Generated/Tables.lean "$EVBAK/"
 cd /repo && git apply "$D/mutant.diff" || { echo "patch does not apply"; exit 2; }
 cd /verif
 for P in "$@"; do
   python3 check.py "$P" "$TIERX" 2>&1 | grep -v KNOWN | grep -E "VIOLATION|$P (quick|thorough):" | awk '!/VIOLATION/ || ++c<=1' | cut -c1-175
 done
 cd /repo && git checkout -- .
+# the runs above were against a modified tree: put the evidence of the unchanged tree and the generated tables back
+rm -rf /verif/evidence && cp -r "$EVBAK/evidence" /verif/evidence && cp "$EVBAK/Tables.lean" /verif/lean/Pep508/Generated/Tables.lean && rm -rf "$EVBAK"
